@@ -856,3 +856,25 @@ Proof.
   rewrite project_compose by (destruct (p_xfields p); apply rows_natural_all_rows). f_equal.
   rewrite project_compose by (destruct (p_content p) as [c|]; [apply rows_natural_content|apply rows_natural_all_rows]). reflexivity.
 Qed.
+
+(** a path expression with unbalanced parentheses (fields, fc.xfields, the selector of fc.range)
+    is an error *)
+Theorem bad_path_expr_is_error : forall q kids data v,
+  (lookup (B "fields") q = Some v /\ balanced v 0 = false) \/
+  (lookup (B "fc.xfields") q = Some v /\ balanced v 0 = false) \/
+  (lookup (B "fc.range") q = Some v /\
+   exists sel rows, cut_at x21 v [] = Some (sel, rows) /\ balanced sel 0 = false) ->
+  is_err (read_query kids data q).
+Proof.
+  intros q kids data v H. unfold read_query. apply bind_err.
+  unfold build_constraints. destruct q as [|kv q']; [destruct H as [[H _]|[[H _]|[H _]]]; discriminate|].
+  set (qq := kv :: q') in *.
+  destruct H as [[Hl Hb]|[[Hl Hb]|[Hl [sel [rows [Hc Hb]]]]]].
+  - apply bind_err_k; intros depth. apply bind_err_k; intros range. apply bind_err.
+    unfold opt_param. rewrite Hl. apply bind_err. rewrite parse_unbalanced_is_error by assumption. now eexists.
+  - apply bind_err_k; intros depth. apply bind_err_k; intros range. apply bind_err_k; intros fields. apply bind_err.
+    unfold opt_param. rewrite Hl. apply bind_err. rewrite parse_unbalanced_is_error by assumption. now eexists.
+  - apply bind_err_k; intros depth. apply bind_err.
+    unfold opt_param. rewrite Hl. apply bind_err. unfold new_list_range. rewrite Hc.
+    apply bind_err. rewrite parse_unbalanced_is_error by assumption. now eexists.
+Qed.
